@@ -7,18 +7,38 @@ Import ListNotations.
 Local Open Scope Z_scope.
 
 (* ---- heappop ---- *)
-Lemma node_leb_f x y : node_leb x y = true -> nd_f x <= nd_f y.
+Definition ole (a b : option Z) : Prop :=
+  match a, b with
+  | Some x, Some y => x <= y
+  | _, None => True
+  | None, Some _ => False
+  end.
+
+Lemma ole_refl a : ole a a.
+Proof. destruct a; simpl; auto; lia. Qed.
+
+Lemma ole_trans a b c : ole a b -> ole b c -> ole a c.
+Proof. destruct a, b, c; simpl; auto; try lia; contradiction. Qed.
+
+Lemma node_leb_f x y : node_leb x y = true -> ole (nd_f x) (nd_f y).
 Proof.
-  unfold node_leb. destruct (nd_f x <? nd_f y) eqn:E1.
-  - apply Z.ltb_lt in E1. lia.
-  - destruct (nd_f y <? nd_f x) eqn:E2; [discriminate|].
-    apply Z.ltb_ge in E1. lia.
+  unfold node_leb. destruct (nd_f x) as [a|], (nd_f y) as [b|]; simpl; auto.
+  - destruct (a <? b) eqn:E1; [apply Z.ltb_lt in E1; lia|].
+    destruct (b <? a) eqn:E2; [discriminate|]. apply Z.ltb_ge in E1. lia.
+  - discriminate.
 Qed.
 
-Lemma node_leb_false_f x y : node_leb x y = false -> nd_f y <= nd_f x.
+Lemma node_leb_false_f x y : node_leb x y = false -> ole (nd_f y) (nd_f x).
 Proof.
-  unfold node_leb. destruct (nd_f x <? nd_f y) eqn:E1; [discriminate|].
-  apply Z.ltb_ge in E1. auto.
+  unfold node_leb. destruct (nd_f x) as [a|], (nd_f y) as [b|]; simpl; auto.
+  - destruct (a <? b) eqn:E1; [discriminate|]. apply Z.ltb_ge in E1. auto.
+  - discriminate.
+Qed.
+
+Lemma node_eqb_refl x : node_eqb x x = true.
+Proof.
+  unfold node_eqb. rewrite !Z.eqb_refl, Nat.eqb_refl.
+  destruct (nd_f x); simpl; [rewrite Z.eqb_refl|]; reflexivity.
 Qed.
 
 Lemma pop_min_none q : pop_min q = None -> q = [].
@@ -29,7 +49,7 @@ Qed.
 
 Lemma pop_min_spec q : forall m r, pop_min q = Some (m, r) ->
   In m q /\ (forall x, In x r -> In x q) /\ (forall x, In x q -> x = m \/ In x r) /\
-  (forall x, In x q -> nd_f m <= nd_f x) /\ length q = S (length r).
+  (forall x, In x q -> ole (nd_f m) (nd_f x)) /\ length q = S (length r).
 Proof.
   induction q as [|x q IH]; intros m r H; simpl in H; [discriminate|].
   destruct (pop_min q) as [[m' r']|] eqn:P.
@@ -37,8 +57,8 @@ Proof.
     destruct (node_leb x m') eqn:L; inversion H; subst; clear H.
     + split; [now left|]. split; [intros y Hy; now right|]. split.
       * intros y [E | Hy]; auto.
-      * split; [|reflexivity]. intros y [E | Hy]; [subst; lia|].
-        apply node_leb_f in L. specialize (Hmin _ Hy). lia.
+      * split; [|reflexivity]. intros y [E | Hy]; [subst; apply ole_refl|].
+        apply node_leb_f in L. specialize (Hmin _ Hy). eapply ole_trans; eauto.
     + split; [now right|]. split.
       * intros y [E | Hy]; [now left | right; auto].
       * split.
@@ -46,14 +66,15 @@ Proof.
         -- split; [|simpl; lia]. intros y [E | Hy]; [subst; now apply node_leb_false_f | auto].
   - inversion H; subst. apply pop_min_none in P. subst q.
     split; [now left|]. split; [intros y []|]. split; [intros y [E | []]; auto|].
-    split; [|reflexivity]. intros y [E | []]. subst. lia.
+    split; [|reflexivity]. intros y [E | []]. subst. apply ole_refl.
 Qed.
 
 Section AStar.
 Variable g : graph.
 Variable start : nat.
 Variable ord : nat -> list edge -> list edge.
-Variable h : nat -> Z.
+Variable hz : nat -> Z.                                   (* a finite heuristic ... *)
+Let h : nat -> option Z := fun s => Some (hz s).          (* ... as the loop sees it (None would be +inf) *)
 Variable tbs : nat -> Z.
 
 Hypothesis Hwf : wf_graph g.
@@ -62,15 +83,15 @@ Hypothesis Hstart : (start < g_n g)%nat.
 (* h u <= c + h v along every transition, h = 0 on goals (cost convention; msdm is given -h) *)
 Definition consistent : Prop :=
   forall s, (s < g_n g)%nat ->
-    (g_goal g s = true -> h s = 0) /\
-    (forall e, In e (g_succ g s) -> h s <= e_cost e + h (e_dst e)).
+    (g_goal g s = true -> hz s = 0) /\
+    (forall e, In e (g_succ g s) -> hz s <= e_cost e + hz (e_dst e)).
 Hypothesis Hcons : consistent.
 Hypothesis Hord : forall k l e, In e (ord k l) <-> In e l.
 
 Lemma wcost_cost p : wcost e_cost p = cost p.
 Proof. reflexivity. Qed.
 
-Lemma consistent_walk v p u : (v < g_n g)%nat -> walk g v p u -> h v <= cost p + h u.
+Lemma consistent_walk v p u : (v < g_n g)%nat -> walk g v p u -> hz v <= cost p + hz u.
 Proof.
   intros Hv W. induction W as [v | v e p u He W IH].
   - unfold cost; simpl; lia.
@@ -83,7 +104,7 @@ Definition OpA (st : astate) (t : nat) (gt : Z) : Prop :=
 
 Record ainv (st : astate) (ps : nat) (pend : list edge) : Prop := {
   a_s : sinv g start e_cost (a_came st) (a_visited st) (OpA st) ps pend;
-  a_qf : forall nd, In nd (a_queue st) -> nd_f nd = nd_g nd + h (nd_s nd);
+  a_qf : forall nd, In nd (a_queue st) -> nd_f nd = Some (nd_g nd + hz (nd_s nd));
   a_bq : forall t b, lookup t (a_best st) = Some b -> In b (a_queue st) /\ nd_s b = t;
   a_qb : forall nd, In nd (a_queue st) -> ~ In (nd_s nd) (map fst (a_visited st)) ->
            exists b, lookup (nd_s nd) (a_best st) = Some b /\ (b = nd \/ nd_g b < nd_g nd);
@@ -100,7 +121,7 @@ Proof.
       destruct (t =? start)%nat eqn:Et; [|discriminate]. apply Nat.eqb_eq in Et.
       inversion L; subst. auto.
     + intros t gt _ [].
-    + left. split; auto. exists (0 + h start, tbs 0%nat, 0, start). simpl. rewrite Nat.eqb_refl. auto.
+    + left. split; auto. exists (Some (0 + hz start), tbs 0%nat, 0, start). simpl. rewrite Nat.eqb_refl. auto.
     + intros x gx e [].
     + intros x gx p [].
   - intros nd [E | []]. subst nd. reflexivity.
@@ -133,10 +154,10 @@ Proof.
   { intros b L Hle. constructor; try apply I.
     eapply sinv_discharge; eauto. apply I. right. exists (nd_g b). split; auto. exists b. auto. }
   assert (Hpush : (forall b, lookup (e_dst e) (a_best st) = Some b -> g' < nd_g b) ->
-    ainv (let st' := a_push tbs st (g' + h (e_dst e)) g' (e_dst e) in
+    ainv (let st' := a_push tbs st (oplus g' (h (e_dst e))) g' (e_dst e) in
           mkA (a_queue st') (a_best st') (a_visited st') ((e_dst e, (s, e_act e)) :: a_came st') (a_pushes st'))
          s pend).
-  { intros Hb. simpl. set (nd := (g' + h (e_dst e), tbs (a_pushes st), g', e_dst e) : node).
+  { intros Hb. simpl. set (nd := (Some (g' + hz (e_dst e)), tbs (a_pushes st), g', e_dst e) : node).
     constructor; simpl.
     - apply sinv_push with (Op := OpA st) (gs := gs); auto.
       + apply I.
@@ -183,19 +204,19 @@ Proof.
   intros I P Hnv. destruct (pop_min_spec _ _ _ P) as [Hm [_ [_ [Hmin _]]]].
   destruct (a_qb _ _ _ I _ Hm Hnv) as [b [L [E | Hlt]]]; [now subst|].
   destruct (a_bq _ _ _ I _ _ L) as [Hb Es].
-  specialize (Hmin _ Hb). rewrite (a_qf _ _ _ I _ Hb), (a_qf _ _ _ I _ Hm), Es in Hmin. lia.
+  specialize (Hmin _ Hb). rewrite (a_qf _ _ _ I _ Hb), (a_qf _ _ _ I _ Hm), Es in Hmin. simpl in Hmin. lia.
 Qed.
 
 (* the popped key is below cost + h of every walk from the start to a state that is not closed *)
 Lemma popped_bound st ps nd q' p u :
   ainv st ps [] -> pop_min (a_queue st) = Some (nd, q') ->
   walk g start p u -> ~ In u (map fst (a_visited st)) ->
-  nd_f nd <= cost p + h u.
+  nd_g nd + hz (nd_s nd) <= cost p + hz u.
 Proof.
-  intros I P W Hu. destruct (pop_min_spec _ _ _ P) as [_ [_ [_ [Hmin _]]]].
+  intros I P W Hu. destruct (pop_min_spec _ _ _ P) as [Hm [_ [_ [Hmin _]]]].
   destruct (frontier _ _ _ _ _ _ _ (a_s _ _ _ I) _ _ W Hu) as [p1 [p2 [y [gy [E [W1 [W2 [[b [L Eg]] B]]]]]]]].
   destruct (a_bq _ _ _ I _ _ L) as [Hb Es].
-  specialize (Hmin _ Hb). rewrite (a_qf _ _ _ I _ Hb), Es, Eg in Hmin.
+  specialize (Hmin _ Hb). rewrite (a_qf _ _ _ I _ Hb), (a_qf _ _ _ I _ Hm), Es, Eg in Hmin. simpl in Hmin.
   assert (Hy : (y < g_n g)%nat) by (apply (walk_wf _ _ _ _ Hwf Hstart W1)).
   pose proof (consistent_walk _ _ _ Hy W2). rewrite wcost_cost in B.
   subst p. rewrite cost_app. lia.
@@ -301,19 +322,20 @@ Proof.
     - now rewrite E.
     - destruct (closed_realised _ _ _ _ _ _ _ _ _ _ (a_s _ _ _ I) Hx) as [p [W _]].
       rewrite <- Ed. apply (Hwf x); auto. apply (walk_wf _ _ _ _ Hwf Hstart W). }
+  rewrite Lb, node_eqb_refl. cbn [negb].          (* the stale-skip branch is dead for finite keys *)
   assert (Hbound : forall p u, walk g start p u -> ~ In u (map fst (a_visited st)) ->
-                               nd_g nd + h (nd_s nd) <= cost p + h u).
-  { intros p u W Hu. rewrite <- (a_qf _ _ _ I _ Hm). eapply popped_bound; eauto. }
+                               nd_g nd + hz (nd_s nd) <= cost p + hz u).
+  { intros p u W Hu. eapply popped_bound; eauto. }
   destruct (g_goal g (nd_s nd)) eqn:G.
   { (* goal popped *)
-    assert (Hh : h (nd_s nd) = 0) by (apply (Hcons _ Hs); auto).
+    assert (Hh : hz (nd_s nd) = 0) by (apply (Hcons _ Hs); auto).
     assert (Hmin' : forall p' u', walk g start p' u' -> g_goal g u' = true -> nd_g nd <= cost p').
     { intros p' u' W' G'.
       assert (Hu' : ~ In u' (map fst (a_visited st))).
       { intros Hin. apply in_map_iff in Hin. destruct Hin as [[x gx] [E Hx]]. simpl in E. subst x.
         rewrite (a_vg _ _ _ I _ _ Hx) in G'. discriminate. }
       specialize (Hbound _ _ W' Hu').
-      assert (h u' = 0) by (apply (Hcons u'); auto; apply (walk_wf _ _ _ _ Hwf Hstart W')). lia. }
+      assert (hz u' = 0) by (apply (Hcons u'); auto; apply (walk_wf _ _ _ _ Hwf Hstart W')). lia. }
     destruct (s_opr _ _ _ _ _ _ _ _ (a_s _ _ _ I) _ _ Ops) as [[Ev [Es Eg]] | L].
     - rewrite Ev, Es. simpl. rewrite Nat.eqb_refl. simpl. rewrite Es in G.
       split; [|discriminate].
@@ -370,72 +392,72 @@ Qed.
 End AStar.
 
 (* ---- closed statements ---- *)
-Lemma consistentb_sound g h : consistentb g h = true -> consistent g h.
+Lemma consistentb_sound g hz : consistentb g (fun s => Some (hz s)) = true -> consistent g hz.
 Proof.
   unfold consistentb, consistent. intros H s Hs. rewrite forallb_forall in H.
   specialize (H s ltac:(apply in_seq; lia)). apply andb_true_iff in H. destruct H as [H1 H2]. split.
-  - intros G. rewrite G in H1. now apply Z.eqb_eq.
-  - intros e He. rewrite forallb_forall in H2. specialize (H2 _ He). now apply Z.leb_le.
+  - intros G. rewrite G in H1. simpl in H1. now apply Z.eqb_eq.
+  - intros e He. rewrite forallb_forall in H2. specialize (H2 _ He). simpl in H2. now apply Z.leb_le.
 Qed.
 
 Definition ord_ok (ord : nat -> list edge -> list edge) : Prop :=
   (forall k l e, In e (ord k l) <-> In e l) /\ (forall k l, (length (ord k l) <= length l)%nat).
 
-Theorem astar_total g start ord h tbs :
-  wf_graph g -> (start < g_n g)%nat -> consistent g h -> ord_ok ord ->
-  match astar g start ord h tbs with
+Theorem astar_total g start ord hz tbs :
+  wf_graph g -> (start < g_n g)%nat -> consistent g hz -> ord_ok ord ->
+  match astar g start ord (fun s => Some (hz s)) tbs with
   | Found path acts v _ => valid_plan g start (Some (path, acts, v))
   | NoPlan _ => valid_plan g start None
   | Broken | OutOfFuel => False
   end.
 Proof.
   intros Hwf Hs Hc [Ho1 Ho2].
-  pose proof (astar_sound_optimal g start ord h tbs Hwf Hs Hc Ho1) as H1.
-  pose proof (astar_terminates g start ord h tbs Hwf Hs Hc Ho1 Ho2) as H2.
-  destruct (astar g start ord h tbs); simpl in *; auto.
+  pose proof (astar_sound_optimal g start ord hz tbs Hwf Hs Hc Ho1) as H1.
+  pose proof (astar_terminates g start ord hz tbs Hwf Hs Hc Ho1 Ho2) as H2.
+  destruct (astar g start ord (fun s => Some (hz s)) tbs); simpl in *; auto.
 Qed.
 
 (* sound + optimal: the returned path is a real path to a goal, its reported value is the sum of
    its costs, and no path to any goal costs less *)
-Theorem astar_sound_optimal_found g start ord h tbs path acts v vis :
-  wf_graph g -> (start < g_n g)%nat -> consistent g h -> ord_ok ord ->
-  astar g start ord h tbs = Found path acts v vis ->
+Theorem astar_sound_optimal_found g start ord hz tbs path acts v vis :
+  wf_graph g -> (start < g_n g)%nat -> consistent g hz -> ord_ok ord ->
+  astar g start ord (fun s => Some (hz s)) tbs = Found path acts v vis ->
   exists p u, walk g start p u /\ g_goal g u = true /\ verts start p = path /\ map e_act p = acts /\
               cost p = v /\
               (forall p' u', walk g start p' u' -> g_goal g u' = true -> v <= cost p').
 Proof.
-  intros Hwf Hs Hc Ho E. pose proof (astar_total g start ord h tbs Hwf Hs Hc Ho) as H. rewrite E in H. exact H.
+  intros Hwf Hs Hc Ho E. pose proof (astar_total g start ord hz tbs Hwf Hs Hc Ho) as H. rewrite E in H. exact H.
 Qed.
 
-Theorem astar_complete g start ord h tbs :
-  wf_graph g -> (start < g_n g)%nat -> consistent g h -> ord_ok ord ->
-  ((exists vis, astar g start ord h tbs = NoPlan vis) <->
+Theorem astar_complete g start ord hz tbs :
+  wf_graph g -> (start < g_n g)%nat -> consistent g hz -> ord_ok ord ->
+  ((exists vis, astar g start ord (fun s => Some (hz s)) tbs = NoPlan vis) <->
    (forall p u, walk g start p u -> g_goal g u = false)).
 Proof.
-  intros Hwf Hs Hc Ho. pose proof (astar_total g start ord h tbs Hwf Hs Hc Ho) as H. split.
+  intros Hwf Hs Hc Ho. pose proof (astar_total g start ord hz tbs Hwf Hs Hc Ho) as H. split.
   - intros [vis E]. rewrite E in H. exact H.
-  - intros Hn. destruct (astar g start ord h tbs) as [| |vis|path acts v vis]; try contradiction.
+  - intros Hn. destruct (astar g start ord (fun s => Some (hz s)) tbs) as [| |vis|path acts v vis]; try contradiction.
     + eauto.
     + destruct H as [p [u [W [G _]]]]. rewrite (Hn _ _ W) in G. discriminate.
 Qed.
 
-Theorem astar_complete_total g start ord h tbs :
-  wf_graph g -> (start < g_n g)%nat -> consistent g h -> ord_ok ord ->
-  ((exists vis, astar g start ord h tbs = NoPlan vis) <->
+Theorem astar_complete_total g start ord hz tbs :
+  wf_graph g -> (start < g_n g)%nat -> consistent g hz -> ord_ok ord ->
+  ((exists vis, astar g start ord (fun s => Some (hz s)) tbs = NoPlan vis) <->
    (forall p u, walk g start p u -> g_goal g u = false)) /\
-  astar g start ord h tbs <> OutOfFuel /\ astar g start ord h tbs <> Broken.
+  astar g start ord (fun s => Some (hz s)) tbs <> OutOfFuel /\ astar g start ord (fun s => Some (hz s)) tbs <> Broken.
 Proof.
   intros Hwf Hs Hc Ho. split; [apply astar_complete; auto|].
-  pose proof (astar_total g start ord h tbs Hwf Hs Hc Ho) as H.
-  destruct (astar g start ord h tbs); split; try discriminate; contradiction.
+  pose proof (astar_total g start ord hz tbs Hwf Hs Hc Ho) as H.
+  destruct (astar g start ord (fun s => Some (hz s)) tbs); split; try discriminate; contradiction.
 Qed.
 
 (* non-vacuity: a consistent non-zero heuristic (the exact distances) on the example graph; lifo
    tie-breaking; the loop returns the cost-3 path through the zero-cost edge *)
 Example astar_example :
-  let hx := h_of [3; 2; 2; 0; 0] in
+  let hx := hz_of [3; 2; 2; 0; 0] in
   wf_graph ex_graph /\ (0 < g_n ex_graph)%nat /\ consistent ex_graph hx /\ ord_ok (fun _ l => l) /\
-  astar ex_graph 0 (fun _ l => l) hx tbs_lifo = Found [0; 1; 2; 3]%nat [0; 0; 0]%nat 3 [2; 1; 0]%nat.
+  astar ex_graph 0 (fun _ l => l) (fun s => Some (hx s)) tbs_lifo = Found [0; 1; 2; 3]%nat [0; 0; 0]%nat 3 [2; 1; 0]%nat.
 Proof.
   split; [apply wf_graphb_sound; reflexivity|]. split; [simpl; lia|].
   split; [apply consistentb_sound; reflexivity|].
